@@ -540,17 +540,23 @@ def r05_5(ctx, consumption=True) -> None:
                 ys = tuple(e[1][1] if isinstance(e[1], tuple) and e[1][:1] == ("item",) else e[1] for e in tr if e[0] == "yield")
                 pulls = sum(1 for e in tr if e[0] == "pull")
                 ends = sum(1 for e in tr if e[0] == "end")
-                got.add((ys, pulls, oc.terminal.kind) + ((ends,) if consumption == "ends" else ()))
+                # the order of requests and hand-outs: an item is handed out before the next one is requested
+                order = tuple(("pull", e[1]) if e[0] == "pull" else ("end",) if e[0] == "end" else
+                              ("yield", e[1][1] if isinstance(e[1], tuple) and e[1][:1] == ("item",) else e[1])
+                              for e in tr if e[0] in ("pull", "end", "yield"))
+                got.add((ys, pulls, oc.terminal.kind) + ((ends, order) if consumption == "ends" else ()))
             if not consumption:
                 # (C01 speaks of the items only; how many items are pulled is C05's / C06's / C08's business)
                 got = {(ys, want_c, kind_) for (ys, _pulls, kind_) in got}
-            ok = got == {(tuple(want_y), want_c, "exit") + ((want_e,) if consumption == "ends" else ())}
+            want_order = tuple(x for i in range(want_c) for x in ((("pull", i), ("yield", i)) if i in want_y else (("pull", i),))) \
+                + (("end",),) * want_e
+            ok = got == {(tuple(want_y), want_c, "exit") + ((want_e, want_order) if consumption == "ends" else ())}
             if not ok:
                 bad += 1
                 if bad <= 4:
                     ctx.fail("R05.5", u, "islice", f"[islice(<{n} items>, {', '.join(map(str, args))})] yields / consumption differ from "
                              "itertools.islice", witness=f"evaluated (yielded indexes, items pulled, exit"
-                             f"{', end-of-source detections' if consumption == 'ends' else ''}): {sorted(map(str, got))[:2]}; "
+                             f"{', end-of-source detections, order of requests and hand-outs' if consumption == 'ends' else ''}): {sorted(map(str, got))[:2]}; "
                              f"itertools.islice: yields {want_y}, pulls {want_c}"
                              f"{', end-of-source detections ' + str(want_e) if consumption == 'ends' else ''}")
     if not bad:
